@@ -36,7 +36,10 @@ fn main() {
             3
         }
     };
-    std::process::exit(code);
+    if code != 0 {
+        std::process::exit(code);
+    }
+    // returning normally lets Miri / LSan run their end-of-process leak check
 }
 
 /// Run on a thread with a large stack (data nesting depth is a stated non-goal of the library).
